@@ -5,8 +5,8 @@ CONSTANTS
   RenameTwice = FALSE
   NonRecDirs = FALSE
   NonRecCross = FALSE
-  B2B = TRUE
-  WithRoot = FALSE
+  B2B = FALSE
+  WithRoot = TRUE
   InodeReuse = FALSE
   StickyCreated = FALSE
   ViewSkipInCreatedRemoved = FALSE
@@ -15,4 +15,5 @@ INVARIANT Xlat_ReplicaMatches
 INVARIANT Xlat_RenameIsOneMovedEvent
 INVARIANT Xlat_MoveInOutIsCreatedDeleted
 INVARIANT FSEvents_NonRecursiveNothingBelowChildren
+INVARIANT Xlat_RootRemovedStops
 CHECK_DEADLOCK FALSE
